@@ -303,7 +303,51 @@ def r4_warnings(ctx):
             r.inst("generate_warnings", "all collected warnings are generated")
         else:
             r.viol("R4:generate_warnings_inner", "with 3 warnings the generated item is `%s`: deprecated functions %s, calls %s (expected w0..w2 each defined with its warning's text and called once)" % (txt[:300], fns, calls), file=fn.file, line=fn.line)
+    collector(ctx, r, "R4")
     return r
+
+
+WN = "leptos_i18n_parser/src/parse_locales/warning.rs"
+
+
+def collector(ctx, r, rid):
+    """Warnings::emit_warning / into_inner evaluated (rules/absint.py): every emitted warning is kept, in order - two warnings that
+    differ only in one field (the unused form, the key) are two warnings"""
+    from rules import absint
+    from rules.absint import AEval, C, CF, A, L
+    ast = ctx.ast
+    emit = ast.fn(WN, "emit_warning", impl_self="Warnings")
+    inner = ast.fn(WN, "into_inner", impl_self="Warnings")
+    if emit is None or inner is None:
+        r.missing("Warnings::emit_warning / into_inner")
+        return
+    absint.set_program(ast)
+    S = lambda x: ("str", x)  # noqa: E731
+    ws = [CF("UnusedForm", locale=S("en"), key_path=S("k"), form=C("Few"), rule_type=C("Cardinal")),
+          CF("UnusedForm", locale=S("en"), key_path=S("k"), form=C("Many"), rule_type=C("Cardinal")),
+          CF("UnusedForm", locale=S("en"), key_path=S("k"), form=C("Many"), rule_type=C("Ordinal")),
+          CF("MissingKey", locale=S("fr"), key_path=S("a")), CF("MissingKey", locale=S("fr"), key_path=S("b")), CF("MissingKey", locale=S("de"), key_path=S("a")),
+          CF("SurplusKey", locale=S("fr"), key_path=S("a")), CF("NonUnicodePath", locale=S("fr"), namespace=C("None"), path=A("p1")),
+          CF("NonUnicodePath", locale=S("fr"), namespace=C("Some", S("ns")), path=A("p1"))]
+    this = C("Warnings", L())
+    try:
+        for w in ws:
+            ev = AEval(funcs={})
+            v = ev.run_fn(emit, [this, w])
+            if isinstance(v, str):
+                raise absint.Unknown(v)
+            this = (getattr(ev, "last_env", None) or {}).get("self", this)
+        got = AEval(funcs={}).run_fn(inner, [this])
+        if isinstance(got, str):
+            raise absint.Unknown(got)
+    except absint.Unknown as u:
+        r.viol("%s:Warnings#undecided" % rid, "the warning collector cannot be interpreted on the current code (%s): not decided (fail closed)" % str(u)[:200], file=WN, line=emit.line)
+        return
+    if got == L(*ws):
+        r.inst("Warnings::emit_warning / into_inner", "%d warnings differing in one field each (form, rule type, key, locale, namespace): all kept, in the order emitted" % len(ws))
+    else:
+        lost = [absint.fmt(w) for w in ws if got[0] != "list" or w not in got[1]]
+        r.viol("%s:Warnings#kept" % rid, "of %d emitted warnings the collector hands on %s; lost: %s" % (len(ws), len(got[1]) if got[0] == "list" else absint.fmt(got)[:80], lost[:3]), file=WN, line=emit.line)
 
 
 def run(ctx):
